@@ -148,6 +148,23 @@ func goArg(a string, depth int) string {
 	return a
 }
 
+var nilKinds = []string{"ptr", "map", "slice", "func", "chan"}
+
+// nilType: the Go type of a typed nil panic value (native types: their %T is the same in yaegi and in compiled Go).
+func nilType(kind string) string {
+	switch kind {
+	case "map":
+		return "map[string]int"
+	case "slice":
+		return "[]string"
+	case "func":
+		return "func()"
+	case "chan":
+		return "chan int"
+	}
+	return "*int"
+}
+
 // goVal renders an explicit panic value.
 func goVal(kind, text string) string {
 	switch kind {
@@ -249,6 +266,11 @@ func (r *renderer) stmts(b *strings.Builder, body []Stmt, depth int, ind string)
 				fmt.Fprintf(b, "%sdefer h%d(%s)\n", ind, r.next, goArg(s.Arg, depth))
 			}
 		case "deferpanic":
+			if s.S == "nil" {
+				r.next++
+				fmt.Fprintf(b, "%svar nv%d %s\n%sdefer panic(nv%d)\n", ind, r.next, nilType(s.V), ind, r.next)
+				break
+			}
 			fmt.Fprintf(b, "%sdefer panic(%s)\n", ind, goVal(s.S, s.V))
 		case "recoveris":
 			// is the recovered value the very value `panic` was called with? comparison or type assertion
@@ -258,6 +280,8 @@ func (r *renderer) stmts(b *strings.Builder, body []Stmt, depth int, ind string)
 				test = fmt.Sprintf("ok := x == %q", s.V)
 			case s.S == "int" && s.Form == "eq":
 				test = fmt.Sprintf("ok := x == %s", s.V)
+			case s.S == "nil":
+				test = fmt.Sprintf("t, isT := x.(%s); ok := isT && t == nil", nilType(s.V))
 			case s.S == "str":
 				test = fmt.Sprintf("s, isT := x.(string); ok := isT && s == %q", s.V)
 			case s.S == "int":
@@ -290,10 +314,14 @@ func (r *renderer) stmts(b *strings.Builder, body []Stmt, depth int, ind string)
 				fmt.Fprintf(b, "%spanic(errors.New(%q))\n", ind, s.V)
 			case "fault":
 				fmt.Fprintf(b, "%s%s\n", ind, faultSnippet(s.V))
+			case "nil":
+				// a typed nil, through a variable: the panic value is a non-nil interface holding a nil pointer / map / …
+				fmt.Fprintf(b, "%s{ var nv %s; panic(nv) }\n", ind, nilType(s.V))
 			}
 		case "recover":
 			if s.Show {
-				fmt.Fprintf(b, "%sfmt.Println(\"rec\", recover())\n", ind)
+				// value and dynamic type of what recover() returns
+				fmt.Fprintf(b, "%s{ x := recover(); fmt.Printf(\"rec %%v |%%T\\n\", x, x) }\n", ind)
 			} else {
 				fmt.Fprintf(b, "%srecover()\n", ind)
 			}
@@ -408,11 +436,13 @@ func (g *genCfg) newTag(prefix string) string {
 // explicitVal draws an explicit panic value: string, int or error.
 func (g *genCfg) explicitVal() (string, string) {
 	var k, v string
-	switch g.pick(4) {
+	switch g.pick(6) {
 	case 0:
 		k, v = "int", fmt.Sprint(100+g.pick(50))
 	case 1:
 		k, v = "err", g.newTag("e")
+	case 2:
+		k, v = "nil", nilKinds[g.pick(len(nilKinds))] // typed nil: nil *int, nil map, nil slice, nil func, nil chan
 	default:
 		k, v = "str", g.newTag("p")
 	}
@@ -443,7 +473,7 @@ func (g *genCfg) recoverStmt() Stmt {
 			g.vals = g.vals[:len(g.vals)-1] // not raised anywhere
 		}
 		form := "assert"
-		if k != "err" && g.pick(2) == 0 {
+		if k != "err" && k != "nil" && g.pick(2) == 0 {
 			form = "eq"
 		}
 		return Stmt{Op: "recoveris", S: k, V: v, Form: form}
@@ -604,6 +634,9 @@ func features(b []Stmt, in string, acc map[string]bool) {
 		switch s.Op {
 		case "panic":
 			acc["panic:"+s.S] = true
+			if s.S == "nil" {
+				acc["typed-nil:"+s.V] = true
+			}
 			if s.S == "fault" {
 				acc["fault:"+s.V] = true
 			}
@@ -617,6 +650,9 @@ func features(b []Stmt, in string, acc map[string]bool) {
 			acc["repanic-in:"+in] = true
 		case "deferpanic":
 			acc["deferpanic:"+s.S] = true
+			if s.S == "nil" {
+				acc["typed-nil:"+s.V] = true
+			}
 		case "defervar":
 			acc["defervar:"+s.Form] = true
 			if mayPanicLive(s.Body) {
